@@ -650,6 +650,9 @@ func (f *faultyStore) Mutate(ms []*storage.Mutation, meta []byte) error {
 		<-f.release
 		atomic.StoreInt32(&f.parked, 0)
 	}
+	if f.plan.FailAt == k {
+		return fmt.Errorf("IO error: No space left on device (injected write fault)")
+	}
 	err := f.RocksDBStore.Mutate(ms, meta)
 	if f.plan.KillAfter == k {
 		syscall.Kill(os.Getpid(), syscall.SIGKILL)
